@@ -29,16 +29,42 @@ pub fn run_stream(
 ) -> StreamStats {
     let mut st = StreamStats { steps: 0, judged: 0, skipped: 0, ok: true };
     let mut inst = Inst::new(p);
+    // Every third stream runs on a *recycled* instance: it first consumes an unrelated prefix (the
+    // head of this stream, rescaled and reversed) and is then reset(). The properties count t
+    // "since construction/reset", so the outputs must be those of a fresh instance.
+    let mut prefix: Vec<In> = Vec::new();
+    if inputs.len() % 3 == 0 {
+        let k = inputs.len().min(2 * p.max_period().min(64) + 3);
+        prefix = inputs[..k].iter().rev().map(|x| match x {
+            In::S(v) => In::S(v * 3.25 + 1.0),
+            In::B(b) => In::B(crate::inst::Bar { v: b.v * 2.0 + 1.0, ..b.scale_prices(3.25) }),
+        }).collect();
+        for x in &prefix {
+            let _ = inst.feed(x);
+        }
+        let _ = inst.reset();
+        rep.count("streams_on_recycled_instance(reset_after_prefix)");
+    }
+    let with_prefix = |upto: usize| -> serde_json::Value {
+        let mut ops: Vec<serde_json::Value> = prefix.iter().map(|x| x.to_json()).collect();
+        if !prefix.is_empty() {
+            ops.push(json!({"op": "reset"}));
+        }
+        ops.extend(inputs[..=upto].iter().map(|x| x.to_json()));
+        serde_json::Value::Array(ops)
+    };
     let mut rm = RefModel::new(p);
     let mut js: Judgements = Vec::with_capacity(4);
     let n = p.n();
+    let tracing = every == 1 && rep.wants_trace(p.kind.name());
+    let mut trace: Vec<serde_json::Value> = Vec::new();
     for (i, x) in inputs.iter().enumerate() {
         st.steps += 1;
         let r = rm.push(x);
         let out = match inst.feed(x) {
             Ok(o) => o,
             Err(pn) => {
-                panic_violation(rep, property, oracle, p, ops_json(&inputs[..=i]), &pn.0);
+                panic_violation(rep, property, oracle, p, with_prefix(i), &pn.0);
                 st.ok = false;
                 return st;
             }
@@ -61,7 +87,10 @@ pub fn run_stream(
             "wrapped1" => "phase.wrapped_once",
             _ => "phase.wrapped_twice_or_more",
         });
-        let ok = settle(rep, property, oracle, p, ph, t, &js, &mut || ops_json(&inputs[..=i]));
+        let ok = settle(rep, property, oracle, p, ph, t, &js, &mut || with_prefix(i));
+        if tracing && trace.len() < 250 {
+            trace.push(trace_event(x, &out, &r, &js, sk, ok));
+        }
         if !ok {
             st.ok = false;
             // one witness per stream is enough; keep counting cheaply by stopping this stream
@@ -72,7 +101,24 @@ pub fn run_stream(
                 "reference": js.iter().map(|q| format!("{}={:e} tol={:e}", q.name, q.reference.to_f64(), q.tol)).collect::<Vec<_>>() }));
         }
     }
+    if tracing && !trace.is_empty() {
+        rep.traces.push(json!({"property": property, "kind": p.kind.name(), "params": p.to_json(), "events": trace}));
+    }
     st
+}
+
+/// one fully described event for the offline checker
+pub fn trace_event(x: &In, out: &Out, r: &RefOut, js: &Judgements, skipped: usize, ok: bool) -> serde_json::Value {
+    use crate::inst::hexf;
+    json!({
+        "in": x.to_json(),
+        "out": out.to_json(),
+        "ref": (0..r.n).map(|i| json!([hexf(r.v[i].hi), hexf(r.v[i].lo)])).collect::<Vec<_>>(),
+        "c": r.c.iter().map(|c| hexf(*c)).collect::<Vec<_>>(),
+        "degenerate": r.degenerate, "near_tie": r.near_tie, "m": hexf(r.m), "scale": hexf(r.scale), "t": r.t,
+        "judged": js.iter().map(|q| json!({"name": q.name, "component": q.component, "transform": q.transform, "ref": [hexf(q.reference.hi), hexf(q.reference.lo)], "tol": hexf(q.tol)})).collect::<Vec<_>>(),
+        "skipped": skipped, "online_ok": ok,
+    })
 }
 
 /// Replay `seq` from a fresh instance and a fresh reference and judge only the last output
